@@ -113,7 +113,6 @@ func (pnf *PrevNextFinder) FindOutlink(root *html.Node, pageURL *nurl.URL, findN
 	tmp.Path = "/"
 	tmp.RawPath = tmp.Path
 	allowedPrefix := stringutil.UnescapedString(tmp)
-	lenPrefix := len(allowedPrefix)
 	pnf.printLog("Allowed prefix:", allowedPrefix)
 
 	// Loop through all links, looking for hints that they may be next- or previous- page links.
@@ -142,7 +141,10 @@ func (pnf *PrevNextFinder) FindOutlink(root *html.Node, pageURL *nurl.URL, findN
 			continue
 		}
 
-		if findNext && !rxNumber.MatchString(linkHref[lenPrefix:]) {
+		// The prefix was matched case-insensitively, and case folding may change the
+		// length in bytes, so the remainder must be cut from the folded string.
+		lowerHref := strings.ToLower(linkHref)
+		if findNext && !rxNumber.MatchString(lowerHref[len(strings.ToLower(allowedPrefix)):]) {
 			pnf.appendDebugStrForLink(link, "ignored: not prefix + number")
 			continue
 		}
